@@ -8,6 +8,7 @@
 #include "constructor.h"
 #include "method.h"
 #include "conjunction.h"
+#include <algorithm>
 
 namespace ratio
 {
@@ -202,6 +203,9 @@ namespace ratio
             std::vector<arith_expr> exprs;
             for (const auto &e : expressions)
                 exprs.emplace_back(dynamic_cast<const ast::expression *>(e)->evaluate(scp, ctx));
+            if (std::count_if(exprs.cbegin(), exprs.cend(), [&scp](const auto &ae)
+                              { const auto [lb, ub] = scp.get_core().arith_bounds(ae); return lb != ub; }) > 1)
+                throw std::invalid_argument("non-linear expression: at most one factor can be non-constant..");
             return scp.get_core().mult(exprs);
         }
 
@@ -212,7 +216,9 @@ namespace ratio
             for (const auto &e : expressions)
                 exprs.emplace_back(dynamic_cast<const ast::expression *>(e)->evaluate(scp, ctx));
             for (size_t i = 1; i < exprs.size(); ++i)
-                if (const auto [lb, ub] = scp.get_core().arith_bounds(exprs[i]); lb == ub && is_zero(lb))
+                if (const auto [lb, ub] = scp.get_core().arith_bounds(exprs[i]); lb != ub)
+                    throw std::invalid_argument("non-linear expression: the divisor must be a constant..");
+                else if (is_zero(lb))
                     throw std::invalid_argument("division by zero..");
             return scp.get_core().div(exprs);
         }
